@@ -119,14 +119,18 @@ Definition p_announce : list instr := [ErrIf (CLenNe 40 32); Conv32 CTrue 40; Ca
 Definition p_discover : list instr := [ErrIf (CLenNe 40 32); Conv32 CTrue 40; Call CTrue oVerify1 None true; Call CTrue oDial (Some mPeer) true].
 Definition p_webhooks : list instr := [ErrIf (CLenNe 12 32); Conv32 CTrue 12; Call CTrue oVerify1 None true; Call CTrue oHook (Some mHook) true].
 Definition p_ingest_vertex : list instr := [ErrIf valid_proto_vertex_fails] ++ map_proto_vertex.
+(* gossiper.processLackingParent, one peer: the vertex a peer returns is validated, mapped and offered to the ledger; an invalid
+   answer is skipped (the function returns normally); sub 2 = the peer answered with a vertex at all *)
+Definition p_fetch_parent : list instr :=
+  [RespIf (CAbsent 2); RespIf valid_proto_vertex_fails] ++ map_proto_vertex ++ [Call CTrue oSeal (Some mSeal) false].
 
 Definition program (h : nat) : list instr :=
   match h with
   | 1 => p_propose | 2 => p_confirm | 3 => p_reject | 4 => p_waiting | 5 => p_saved | 6 => p_data | 7 => p_balance
   | 8 => p_trxs_in_dag | 9 => p_alive | 10 => p_gossip_vrx | 11 => p_gossip_trx | 12 => p_get_vertex | 13 => p_announce
-  | 14 => p_discover | 15 => p_alive | 16 => p_webhooks | 17 => p_ingest_vertex | _ => []
+  | 14 => p_discover | 15 => p_alive | 16 => p_webhooks | 17 => p_ingest_vertex | 18 => p_fetch_parent | _ => []
   end.
-Definition all_handlers : list nat := seq 1 17.
+Definition all_handlers : list nat := seq 1 18.
 
 (* ---------------------------------------------------------------- correspondence cases *)
 Definition hcase := (nat * list (nat * nat) * list (nat * nat) * list (nat * nat) * nat * list nat)%type.
